@@ -93,13 +93,22 @@ def _rand_space(rng):
         dims = list(rng.choice([(1, 1), (2, 2), (2, 3), (3, 3), (4, 4), (2, 4), (4, 2)]))
         return {"type": t, "dims": dims, "torus": rng.random() < 0.5, "capacity": cap}
     if t == "network":
-        return {"type": t, "graph": rng.choice(GRAPHS), "capacity": cap}
+        if rng.random() < 0.5:
+            return {"type": t, "graph": rng.choice(GRAPHS), "capacity": cap}
+        n = rng.randint(1, 9)
+        nodes = rng.sample(range(0, 15), n)
+        edges = [[a, b] for i, a in enumerate(nodes) for b in nodes[i + 1:] if rng.random() < 0.35]
+        if rng.random() < 0.2:
+            v = rng.choice(nodes)
+            edges.append([v, v])
+        return {"type": t, "graph": {"nodes": nodes, "edges": edges}, "capacity": cap}
     pts = rng.choice(VORONOI_POINTS)
     caps = [rng.choice([None, 1, 1, 2, 3]) for _ in pts] if rng.random() < 0.7 else [cap]
     return {"type": t, "points": pts, "capacity": cap, "caps": caps}
 
 
-def _rand_dir(rng, sp, ncells):
+def _rand_dir(rng, sp, ncells, cur=None):
+    """a direction key; `cur` = the cell the agent is believed to be in (steers towards existing connections)"""
     t = sp["type"]
     if t in ("moore", "vonneumann", "hex"):
         nd = len(sp["dims"])
@@ -117,8 +126,15 @@ def _rand_dir(rng, sp, ncells):
         return [0] * nd
     if t == "network":
         nodes = sp["graph"]["nodes"]
+        if cur is not None and rng.random() < 0.75:
+            me = nodes[cur]
+            nb = [b if a == me else a for a, b in sp["graph"]["edges"] if me in (a, b)]
+            if nb:
+                return [rng.choice(nb)]
         return [rng.choice(nodes)] if rng.random() < 0.9 else [max(nodes) + 1]
     i, j = rng.randrange(ncells), rng.randrange(ncells + 1)
+    if cur is not None and rng.random() < 0.8:
+        i = cur
     return [i, j]
 
 
@@ -196,7 +212,8 @@ def _gen_ops(rng, sp, kinds, n_ops):
             a = rng.choice(movers)
             if where.get(a) is None and a not in where and rng.random() < 0.8:
                 continue
-            ops.append(["move_rel", a, _rand_dir(rng, sp, ncells)])
+            ops.append(["move_rel", a, _rand_dir(rng, sp, ncells, where.get(a))])
+            where[a] = None     # somewhere else now
         elif r < 0.75:
             if not g2:
                 continue
